@@ -37,6 +37,8 @@ func cmdBaseline(args []string) int {
 	return 0
 }
 
+var selftestOnly string
+
 type selfEntry struct {
 	File    string `json:"file"`
 	Find    string `json:"find"`
@@ -51,6 +53,9 @@ func runSelftest(prop string) (results []map[string]interface{}, allOK bool) {
 	files, _ := filepath.Glob(filepath.Join(verifDir, "selftest", prop, "*.json"))
 	sort.Strings(files)
 	for _, f := range files {
+		if selftestOnly != "" && !strings.Contains(filepath.Base(f), selftestOnly) {
+			continue
+		}
 		var se selfEntry
 		b, _ := os.ReadFile(f)
 		if err := json.Unmarshal(b, &se); err != nil {
@@ -88,6 +93,7 @@ func runSelftest(prop string) (results []map[string]interface{}, allOK bool) {
 
 func cmdSelftest(args []string) int {
 	fs := flag.NewFlagSet("selftest", flag.ExitOnError)
+	fs.StringVar(&selftestOnly, "only", "", "run only the entries whose file name contains this text")
 	fs.Parse(args)
 	rc := 0
 	for _, prop := range fs.Args() {
